@@ -380,18 +380,18 @@ def gen_fault_entry(rng, kind, sid, tbl, exclude=()):
         module = rng.pick(("qartod", "argo", "axds"))
         if (module, "sim_fault") in exclude:
             return None
-        return {
-            "sid": sid,
-            "module": module,
-            "test": "sim_fault",
-            "params": {
-                "mode": "raise",
-                "exc": rng.pick(sorted(EXC_CLASSES)),
-                "scribble": rng.chance(0.5),
-                "tag": rng.randint(0, 4),
-            },
-            "role": "F6",
+        n = len(tbl["times"])
+        mode = rng.weighted([("raise", 6), ("raise_if_n_gt", 2), ("raise_if_n_le", 2)])
+        params = {
+            "mode": mode,
+            "exc": rng.pick(sorted(EXC_CLASSES)),
+            "scribble": rng.chance(0.5),
+            "tag": rng.randint(0, 4),
         }
+        if mode != "raise":
+            # raises while evaluating *some* data: whether this entry fails depends on the rows its window selects
+            params["limit"] = rng.randint(0, max(1, n))
+        return {"sid": sid, "module": module, "test": "sim_fault", "params": params, "role": "F6d" if mode != "raise" else "F6"}
     raise ValueError(kind)
 
 
